@@ -5,7 +5,7 @@
    args    = comma-separated hex names (the operands), "_" for none
    recs    = comma-separated hex:count (records per file name), "_" for none
    opens   = string over o/n/f: answer of the k-th call of the open function, "_" for none
-   history = ;-separated requests: w<hex> a<hex> p<hex> r<hex> c<hex> s<hex> x<hex> M G v<i>:<hex> k<n>
+   history = ;-separated requests: w<hex> a<hex> p<hex> r<hex> c<hex> s<hex> x<hex> f<hex> M G v<i>:<hex> k<n>
    Answer: ;-separated  <effects>/<outcome>  per executed request
    effects = ,-separated  O<r|t|a><hex>  S<hex>  R<f|c|n><hex>  U<o|e|i|m>  C<f|c|n><hex>
    outcome = c0 c- c+ (continue: no value, -1, >=0) | s<error tag> | fuel *)
@@ -47,6 +47,7 @@ let req_of s =
             | [i; h] -> SetArgv (z_of_string i, bytes_of_hex h)
             | _ -> failwith "bad v")
   | 'k' -> SetArgc (z_of_string (tl1 s))
+  | 'f' -> Fflush (bytes_of_hex (tl1 s))
   | _ -> failwith ("bad request " ^ s)
 
 let handle = function
